@@ -12,6 +12,7 @@ NOT_DECIDED = ("equality of the decoded values with the original, byte-for-byte 
                "serde_json) are value-level statements.")
 
 RULES = {
+    "C01.RG": lambda ctx: __import__("rules.foundations", fromlist=["x"]).no_global_state(ctx, "C01.RG"),
     "C01.R11": lambda ctx: __import__("rules.bldrules", fromlist=["x"]).map_new(ctx, "C01.R11"),
     # the data URL is one of the serialised forms: writer and reader must use the same (standard, padded) alphabet
     "C01.R10": lambda ctx: __import__("rules.detrules", fromlist=["x"]).data_url_pairing(ctx, "C01.R10"),
